@@ -93,6 +93,45 @@ Section Lift.
       rewrite -scalemxAl scalerA; congr (_ *: _).
       by rewrite exprSr invfM -mulrA mulVf // mulr1.
     Qed.
+
+    (* other right-hand sides, same head matrix.  EIT with a unit current on one triangle (coefficient 1/area):
+       vertex rows degree 0, triangle rows degree 1  =>  potentials * s^-1;  with a unit current density
+       (coefficient ~1): rows of degree 2 and 3  =>  potentials * s;  surface (dipole-density) sources: rows of degree
+       1 and 2  =>  potentials unchanged *)
+    Lemma potentials_length_scale_gen (a : F) (xs : 'M[F]_(nv + nt, m)) : a != 0 ->
+      Hs *m xs = col_mx (a *: bv) ((a * s) *: bt) -> usubmx xs = (a / s) *: usubmx x.
+    Proof.
+      move=> a0 E.
+      have s20 : s ^+ 2 != 0 by rewrite expf_neq0.
+      have e1 : s = a / (a / s) by rewrite invf_div mulrC -mulrA mulVf // mulr1.
+      have e2 : s ^+ 2 = a / (a / s ^+ 2) by rewrite invf_div mulrC -mulrA mulVf // mulr1.
+      have e3 : s ^+ 2 = a * s / (a / s) by rewrite invf_div mulrC mulrA mulfVK // -expr2.
+      have e4 : s ^+ 3 = a * s / (a / s ^+ 2) by rewrite invf_div mulrC mulrA mulfVK // -exprSr.
+      have -> := (@block_rescale s (s ^+ 2) (s ^+ 3) a (a * s) (a / s) (a / s ^+ 2) xs _ _ _ _ e1 e2 e3 e4 E);
+        by rewrite ?col_mxKu ?mulf_neq0 ?invr_eq0.
+    Qed.
+
+    Lemma gain_eit_unit_current_scale p (A : 'M[F]_(p, nv)) (xs : 'M[F]_(nv + nt, m)) :
+      Hs *m xs = col_mx bv (s *: bt) -> A *m usubmx xs = s^-1 *: (A *m usubmx x).
+    Proof.
+      move=> E; have := (@potentials_length_scale_gen 1 xs (oner_neq0 _)).
+      by rewrite scale1r mul1r div1r => /(_ E) ->; rewrite -scalemxAr.
+    Qed.
+
+    Lemma gain_eit_unit_density_scale p (A : 'M[F]_(p, nv)) (xs : 'M[F]_(nv + nt, m)) :
+      Hs *m xs = col_mx (s ^+ 2 *: bv) (s ^+ 3 *: bt) -> A *m usubmx xs = s *: (A *m usubmx x).
+    Proof.
+      move=> E; have := (@potentials_length_scale_gen (s ^+ 2) xs (expf_neq0 _ s0)).
+      rewrite -exprSr => /(_ E) ->; rewrite -scalemxAr; congr (_ *: _).
+      by rewrite expr2 -mulrA mulfV // mulr1.
+    Qed.
+
+    Lemma gain_surface_source_scale p (A : 'M[F]_(p, nv)) (xs : 'M[F]_(nv + nt, m)) :
+      Hs *m xs = col_mx (s *: bv) (s ^+ 2 *: bt) -> A *m usubmx xs = A *m usubmx x.
+    Proof.
+      move=> E; have := (@potentials_length_scale_gen s xs s0).
+      by rewrite -expr2 mulfV // scale1r => /(_ E) ->.
+    Qed.
   End Length.
 
   (* ---- conductivities * k ------------------------------------------------------------------------------------ *)
